@@ -180,6 +180,18 @@ def test_facts(test, aliases=None):
         if lk and isinstance(op, (ast.In, ast.NotIn)):
             (t if isinstance(op, ast.In) else f).keychecked.add(lk)
             return t, f
+        # D.get(k, s) is not s  /  D.get(k) is not None : k is a key of D
+        if isinstance(left, ast.Call) and \
+                isinstance(left.func, ast.Attribute) and \
+                left.func.attr == "get" and left.args and \
+                isinstance(op, (ast.Is, ast.IsNot, ast.Eq, ast.NotEq)):
+            k = key_of(left.args[0])
+            default = left.args[1] if len(left.args) > 1 else \
+                ast.Constant(value=None)
+            if k and ast.dump(default) == ast.dump(right):
+                (t if isinstance(op, (ast.IsNot, ast.NotEq)) else f) \
+                    .keychecked.add(k)
+                return t, f
         # a comparison of len(x) with anything guards the arm that goes on
         for side, other in ((left, right), (right, left)):
             lks = [is_len_call(n) for n in ast.walk(side)]
